@@ -33,6 +33,7 @@ def run(ctx):
     ctx.do(S.rule_sh2)
     ctx.do(S.rule_sh3)
     ctx.do(S.rule_sh5)
+    ctx.do(S.rule_sh7)
     ctx.do(SI.rule_mean1, [SI.HYP], min_sites=2)
     ctx.do(S.rule_ax1, [CORE, "geometry_tools/hyperbolic.py", PROJ])
     ctx.do(P.rule_s1, ops=[(PROJ, "ProjectiveObject.reshape"),
